@@ -83,14 +83,20 @@ def c13(c):
         # ... many of them: every single-defect mutation (missing / duplicate providers, cycles through tasks and
         # predicates, unused values, stripped Invoke) of random well-formed graphs, many flows per file
         wrng = random.Random(c.seed * 13 + r)
-        flows, k = [], 0
+        flows, alone, k = [], [], 0
         for b_ in range(12 if c.quick else 60):
             g = W.gen_wf_graph(wrng, wrng.randint(2, 6))
             for lab, mg in W.mutations(g, wrng):
                 k += 1
-                flows.append(("M%d" % k, mg, None))
-        maxk = max([1] + [ty for _, g, _ in flows for ty in g["params"] + g["results"] + [t for tk in g["tasks"] for t in tk["ins"] + tk["outs"] + tk["pins"]]])
-        W.write_pkg(root, "pbadwf", {"mut%d.go" % i: ch for i, ch in enumerate(W.chunks(flows, 120))}, maxk)
+                # cff stops compiling a file's later flows once one has an error, so what the validator lets
+                # through reaches the later stages only in the first bad flow of a file: extra edges (the cycle
+                # candidates) get a file each
+                (alone if lab.startswith(("edge", "pedge")) else flows).append(("M%d" % k, mg, None))
+        alone = wrng.sample(alone, min(len(alone), 60 if c.quick else 400))
+        maxk = max([1] + [ty for _, g, _ in flows + alone for ty in g["params"] + g["results"] + [t for tk in g["tasks"] for t in tk["ins"] + tk["outs"] + tk["pins"]]])
+        files = {"mut%d.go" % i: ch for i, ch in enumerate(W.chunks(flows, 120))}
+        files.update({"one%d.go" % i: [f] for i, f in enumerate(alone)})
+        W.write_pkg(root, "pbadwf", files, maxk)
         log.run(cff, root, "pbadwf", "base", (), expectok=False)
         log.judge("corpus %d" % r)
         if len(c.cov["samples"]) < 2:
